@@ -46,6 +46,7 @@ type VC struct {
 	names  map[string]int
 	strs   map[string]string
 	absFns map[string]bool
+	stateAxioms []*Axiom
 	usedSpecFuncs map[string]bool
 	LemmaOf string // non-empty: obligations are named <LemmaOf>#...
 	loopPre map[int]*State // state in which loop N of the function under verification was entered
